@@ -190,6 +190,79 @@ def run(db: DB, rep: Report) -> None:
               "the loop arm of __trans_nodes passes different rank expressions to make_iter_expr and "
               "make_payload")
 
+    # ---- D6: the interval-driven condition is an unconditional disjunct of the predicate
+    rep.rule("D6", "the enumerate predicate holds whenever the interval code needs the position variable", 1)
+    check_need_enumerate(db, rep, "D6")
+
+    # ---- D7: displayed coordinates are expressed in loop variables
+    rep.rule("D7", "access points are built from loop-variable names", 2)
+    C_ = db.cls("teaal.trans.canvas.Canvas")
+    ba = C_.methods.get("__build_access")
+    if ba is None:
+        raise AnalysisError("Canvas.__build_access not found")
+    n_ret = 0
+    for r in [n for n in walk_no_nested(ba.node) if isinstance(n, ast.Return) and n.value is not None]:
+        v = r.value
+        if isinstance(v, ast.Call) and norm(v.func).endswith("build_expr") and v.args:
+            n_ret += 1
+            arg = v.args[0]
+            names, exprs = paths.backward_slice(ba.node, paths.load_names(arg), with_control=False)
+            # the definitions that reach this return: those that precede it
+            subs = []
+            for e in exprs + [arg]:
+                for x in ast.walk(e):
+                    if isinstance(x, ast.Call) and isinstance(x.func, ast.Attribute) and x.func.attr == "subs" \
+                            and getattr(x, "lineno", 0) <= r.lineno:
+                        subs.append(x)
+            renamed = False
+            for x in subs:
+                repl = x.args[1] if len(x.args) > 1 else None
+                if repl is None:
+                    continue
+                rn, rex = paths.backward_slice(ba.node, paths.load_names(repl), with_control=False)
+                calls = paths.called_names(rex + [repl])
+                if "get_dyn_rank" in calls or "partition_rank" in calls:
+                    # the substitution must lie on the path to this return (same or enclosing block)
+                    st = x
+                    while not isinstance(st, ast.stmt):
+                        st = st.parent
+                    blk_owner = st.parent
+                    anc = r
+                    on_path = False
+                    while anc is not None and anc is not ba.node:
+                        if anc.parent is blk_owner or (isinstance(blk_owner, ast.For) and blk_owner.parent is anc.parent):
+                            on_path = True
+                        anc = anc.parent
+                    if on_path:
+                        renamed = True
+            rep.check("D7", renamed, db.loc(r), ba.short, "access-return:" + norm(v)[:60],
+                      "coordinate expression %s has its symbols renamed to loop variables" % norm(arg),
+                      "Canvas.__build_access returns CoordAccess.build_expr(%s) without substituting the "
+                      "rank symbols by the names of the loop variables (get_dyn_rank / the partitioned loop "
+                      "rank): for a partitioned operand rank the activity reads a name no loop binds" % norm(arg))
+    if n_ret < 2:
+        raise AnalysisError("fewer than 2 coordinate-expression returns in Canvas.__build_access")
+
+    # ---- D8: time-rank positions are read only without slip
+    rep.rule("D8", "the plain time tuple (time-rank positions) is used only when slip is off", 1)
+    aa_ = C_.methods["add_activity"]
+    tt = [n for n in walk_no_nested(aa_.node) if isinstance(n, ast.Call) and isinstance(n.func, ast.Attribute)
+          and n.func.attr == "get_time_tuple"]
+    if not tt:
+        raise AnalysisError("Canvas.add_activity no longer uses get_time_tuple")
+    ep = db.func("teaal.ir.spacetime.SpaceTime.emit_pos")
+    # emit_pos suppresses positions of time ranks under slip: "not slip or rank in space"
+    ep_ok = any(isinstance(n, ast.Return) and isinstance(n.value, ast.BoolOp) and isinstance(n.value.op, ast.Or)
+                and any("get_slip" in norm(v) and isinstance(v, ast.UnaryOp) for v in n.value.values)
+                for n in walk_no_nested(ep.node))
+    for c in tt:
+        m = modes.site_modes(c, aa_)
+        rep.check("D8", ("slip=off" in m) or not ep_ok, db.loc(c), aa_.short, "time-tuple-mode",
+                  "get_time_tuple() used under %s" % sorted(m),
+                  "Canvas.add_activity uses the plain time tuple under %s; SpaceTime.emit_pos does not emit "
+                  "the position variables of time ranks when slip is on, so the stamp reads names that are "
+                  "never bound (or stale ones from an earlier Einsum)" % sorted(m))
+
     # ---- D4 --------------------------------------------------------------------
     rep.rule("D4", "one activity per update", 2)
     ok = False
@@ -256,6 +329,45 @@ def run(db: DB, rep: Report) -> None:
               "the activity tuples would not line up with the canvas' tensors")
 
 
+def check_need_enumerate(db: DB, rep: Report, rid: str) -> None:
+    """Every return of Equation.__need_enumerate is true whenever the
+    coordinate-math (interval) condition is true: that local is a top-level
+    disjunct of the returned expression and the return is unconditional."""
+    ne = db.func("teaal.trans.equation.Equation.__need_enumerate")
+    fn = ne.node
+    flags = set()
+    for n in walk_no_nested(fn):
+        if isinstance(n, ast.Assign) and len(n.targets) == 1 and isinstance(n.targets[0], ast.Name) and \
+                isinstance(n.value, ast.Constant) and n.value.value is True:
+            gtxt = " ".join(norm(t) for t, _ in paths.guards(n, stop=fn))
+            if "get_trans" in gtxt or "coord_math" in gtxt or "atoms" in gtxt:
+                flags.add(n.targets[0].id)
+    if len(flags) != 1:
+        raise AnalysisError("interval condition of __need_enumerate not found (%s)" % sorted(flags))
+    flag = next(iter(flags))
+    rets = [n for n in walk_no_nested(fn) if isinstance(n, ast.Return) and n.value is not None]
+
+    def implied(e: ast.AST) -> bool:
+        if isinstance(e, ast.Name):
+            if e.id == flag:
+                return True
+            v = paths.reaching_def(e.id, e, fn) if hasattr(e, "parent") else None
+            return v is not None and implied(v)
+        if isinstance(e, ast.BoolOp) and isinstance(e.op, ast.Or):
+            return any(implied(v) for v in e.values)
+        if isinstance(e, ast.BoolOp) and isinstance(e.op, ast.And):
+            return all(implied(v) for v in e.values)
+        return False
+    for r in rets:
+        g = paths.guards(r, stop=fn)
+        ok = implied(r.value) and not g
+        rep.check(rid, ok, db.loc(r), ne.short, "need-enumerate:" + norm(r.value)[:60],
+                  "returns %s: true whenever '%s' (interval needs the position) is true" % (norm(r.value)[:50], flag),
+                  "Equation.__need_enumerate can return false although '%s' is true (return %s%s): the interval "
+                  "code of make_interval reads <rank>_pos but the loop neither enumerates nor binds it" %
+                  (flag, norm(r.value)[:60], " under " + ", ".join(norm(t)[:40] for t, _ in g) if g else ""))
+
+
 def _parents(n: ast.AST, stop: ast.AST):
     p = getattr(n, "parent", None)
     while p is not None and p is not stop:
@@ -290,6 +402,17 @@ def mutants(db: DB):
         M("output-only loops skip enumerate", eq,
           "            iter_output = self.__make_output_only_iter_expr(rank)\n            return self.__add_enumerate(rank, iter_output)",
           "            iter_output = self.__make_output_only_iter_expr(rank)\n            return iter_output", "D3"),
+        M("display decides about enumerate alone", eq,
+          "        return enum_int or (enum_st and enum_metrics)",
+          "        if spacetime is not None:\n            return enum_st and enum_metrics\n        return enum_int", "D6"),
+        M("interval condition and-ed with metrics again", eq, "        return enum_int or (enum_st and enum_metrics)",
+          "        return (enum_int or enum_st) and enum_metrics", "D6"),
+        M("raw coordinate expression displayed", cv,
+          "        # Now, we need to replace the roots with their dynamic names\n        for symbol in sexpr.atoms(Symbol):",
+          "        if not part_ir.partition_rank((rank.upper(),)):\n            return CoordAccess.build_expr(sexpr)\n\n        # Now, we need to replace the roots with their dynamic names\n        for symbol in sexpr.atoms(Symbol):",
+          "D7"),
+        M("time tuple under slip with empty space", cv, "        if spacetime.get_slip():\n            bop = EBinOp(",
+          "        if spacetime.get_slip() and spacetime.get_space():\n            bop = EBinOp(", "D8"),
         M("activity moved to the footer arm", hf,
           "                    code.add(self.eqn.make_update())\n                    code.add(self.graphics.make_body())",
           "                    code.add(self.eqn.make_update())", "D4"),
